@@ -77,6 +77,14 @@ def gen_T10():
     need('name, user, host = ircutils.splitHostmask(item)' in u353 and "hostmask = '%s!%s@%s' % (nick, user, host)" in u353
          and 'self.nicksToHostmasks[nick] = hostmask' in u353 and 'c.addUser(name)' in u353
          and 'self.nicksToHostmasks[name] = name' not in u353, 'IrcState.do353 changed shape: ' + u353)
+    # replies about a channel the bot is not on are ignored: do353 returns early, do324 / do329 return on KeyError (like do367)
+    need(re.search(r"if channel not in self\.channels:\s+return", u353) is not None and 'ChannelState()' not in u353,
+         'IrcState.do353 starts tracking a channel the bot is not on: ' + u353)
+    for nm in ('do324', 'do329'):
+        ux = ast.unparse(_cls_def(st, nm))
+        need(re.search(r"except KeyError:\s+return", ux) is not None and 'ChannelState()' not in ux,
+             'IrcState.%s starts tracking a channel the bot is not on' % nm)
+    need(re.search(r"except KeyError:\s+pass", ast.unparse(_cls_def(st, 'do367'))) is not None, 'IrcState.do367 changed shape')
     # doNick: the old entry is deleted before the new one is written
     un = ast.unparse(_cls_def(st, 'doNick'))
     i_del, i_set = un.find('del self.nicksToHostmasks[oldNick]'), un.find('self.nicksToHostmasks[newNick] = newHostmask')
